@@ -87,6 +87,9 @@ class World:
                     self.add(R.from_value(P(self.hists()[d[1] % len(self.hists())])))  # a roller over a one-die pool
                 if d[1] % 3 == 0:
                     self.add(_failing_substitution(self.rollers()[0], 3 + d[1] % 3))
+                if d[1] % 3 == 1:
+                    # selectors that are index-like but not plain ints
+                    self.add(R.select_from_sources((_Idx(0), False), self.rollers()[0]) if d[1] % 2 else self.rollers()[0].select(True, slice(None)))
 
     def hists(self):
         return [o for k, o, _ in self.objs if k == "H"]
